@@ -25,7 +25,7 @@ from pyvc.ops import wrap_term, term_of
 I = z3.IntSort()
 KEYCLS = z3.Function("key_class", I, I, I)      # (mode tag, reaction id) -> equivalence class of the comparison key
 Q = "Network.find_duplicate_reaction"
-P = ("C15",)
+P = ("C15", "C06", "C14")
 MODES = {None: 0, "brief": 1, "minimal": 2, "short": 3}
 
 
@@ -40,12 +40,21 @@ class DupCtx(VerifContext):
 
     # ---- object model
     def set_rep(self, interp, x):
+        if isinstance(x, SInt):
+            return x.t          # an integer used as a key is its own class
         if isinstance(x, SObj) and x.cls in ("Reaction", "BriefKey", "FormatKey"):
             want = {"Reaction": 0, "BriefKey": 1}.get(x.cls, self.mode_tag)
             if want != self.mode_tag:
                 raise Unsupported("key of another comparison mode")
             return KEYCLS(self.mode_tag, x.id)
         raise Unsupported(f"dict key {x!r}")
+
+    def obj_hash(self, interp, obj):
+        """hash() of a key object: an arbitrary function of the object that is constant on key classes (consistency with ==) and
+        nothing more - in particular NOT injective on classes, so a table keyed by hash values merges unrelated keys"""
+        if obj.cls in ("Reaction", "BriefKey", "FormatKey"):
+            return wrap_term(z3.Function("hash_of_key_class", I, I)(self.set_rep(interp, obj)))
+        raise Unsupported(f"hash of {obj.cls}")
 
     def _kc(self, x):
         """spec: class of a check_list element"""
@@ -209,7 +218,7 @@ def entry(it):
 def _register():
     from pyvc.units import Unit, register
     from naunet.network import Network
-    register(Unit("find_duplicate_reaction", __name__, make_ctx, entry, functions=[Network.find_duplicate_reaction], props=("C15",),
+    register(Unit("find_duplicate_reaction", __name__, make_ctx, entry, functions=[Network.find_duplicate_reaction], props=("C15", "C06", "C14"),
                   note="modes None/brief/minimal/short; key equality abstracted as an equivalence (assumption, see reaction_eq_hash)"))
 
 
